@@ -312,7 +312,7 @@ def _check_driver(ck, inst, ssite, p, owner, init, ow, nch):
             for j, v_ in enumerate(per_obs.values()):
                 for draw, c in zip((first, gen), v_):
                     smp_t = c[7].get("samples") if len(c) > 7 else None
-                    ck.check(smp_t is not None and smp_t == draw[6], "C13.R4", inst + ":evaluated on this draw's chains #%d" % j, ssite,
+                    ck.check((smp_t == draw[6]) if (smp_t is not None and draw[6] is not None) else None, "C13.R4", inst + ":evaluated on this draw's chains #%d" % j, ssite,
                              "an observable is not evaluated on the chain state returned by the current draw")
     else:
         ck.check(per_draw == nobs and len(sfs) == 2 * nobs, "C13.R4", inst + ":each observable once per draw", ssite, "statistics_from_samples is called %d times for %d observables and 2 analysed draws" % (len(sfs), nobs))
@@ -320,7 +320,7 @@ def _check_driver(ck, inst, ssite, p, owner, init, ow, nch):
         for j, c in enumerate(sfs):
             draw = first if j < nobs else gen
             smp_t = c[7].get("samples") if len(c) > 7 else None
-            ck.check(smp_t is not None and smp_t == draw[6], "C13.R4", inst + ":evaluated on this draw's chains #%d" % j, ssite,
+            ck.check((smp_t == draw[6]) if (smp_t is not None and draw[6] is not None) else None, "C13.R4", inst + ":evaluated on this draw's chains #%d" % j, ssite,
                      "an observable is not evaluated on the chain state returned by the current draw")
     ups = [c for c in it.calls if c[0].endswith("_update_statistics")]
     vec = [c for c in ups if isinstance(argp(c[5], 3), VTens)]
